@@ -4,133 +4,10 @@
 (* TRACE_FILE is one observed execution of RewritingContext.apply(); every *)
 (* step of this spec consumes one line and prints its verdict.             *)
 (***************************************************************************)
-EXTENDS G1Cfi, Json, IOUtils, TLC, TLCExt
+EXTENDS G1Verdict, Json, IOUtils, TLC, TLCExt
 
 Traces == ndJsonDeserialize(IOEnv.TRACE_FILE)
 VARIABLE tid
-
-\* <<name, in-domain, holds>>
-\* a clause is evaluated only inside its domain (operator arguments are lazy)
-Cl(name, d, h) == <<name, d, IF d THEN h ELSE TRUE>>
-Clauses(X, K, C) ==
-  LET t == X.t
-      dom == DomG1(t)
-      done == dom /\ Completed(t)
-  IN << Cl("C01_Completes", dom, Completed(t)),
-        Cl("C01_Bytes", done /\ NoAlignment(t.pre), C01_Bytes(X)),
-        Cl("C02_Positions", done, C02_Positions(X)),
-        Cl("C02_Proxy", done, C02_Proxy(X)),
-        Cl("C02_PatchLabels", done, C02_PatchLabels(X)),
-        Cl("C02_NoStranded", dom, C02_NoStranded(X)),
-        Cl("C04_Sx", done, C04_Sx(X)),
-        Cl("C04_Ann", done, C04_Ann(X)),
-        Cl("C04_InBounds", done, C04_InBounds(X)),
-        Cl("C04_SymIdentity", done, C04_SymIdentity(X)),
-        Cl("C04_NoStaleOnEmpty", done, C04_NoStaleOnEmpty(X)),
-        Cl("C06_Attribution", done, C06_Attribution(X)),
-        Cl("C06_DataNever", done, C06_DataNever(X)),
-        Cl("C06_Partition", done, C06_Partition(X)),
-        Cl("C06_Entries", done, C06_Entries(X)),
-        Cl("C06_EmptyFunctionGone", done, C06_EmptyFunctionGone(X)),
-        Cl("C06_InsertedFunction", done, C06_InsertedFunction(X)),
-        Cl("C03_Completes", IF dom THEN K.preOk ELSE FALSE, Completed(t)),
-        Cl("C03_Fallthrough", IF done THEN K.dom ELSE FALSE, C03_Fallthrough(K)),
-        Cl("C03_BranchCall", IF done THEN K.dom ELSE FALSE, C03_BranchCall(K)),
-        Cl("C03_Returns", IF done THEN K.dom /\ ~RetargetsACall(X) ELSE FALSE, C03_Returns(K)),
-        Cl("C03_NoBuriedTerminator", IF done THEN K.dom ELSE FALSE, C03_NoBuriedTerminator(X)),
-        Cl("C03_EndpointsAlive", done, C03_EndpointsAlive(X)),
-        Cl("C05_Completes", dom /\ t.fault = 0, Completed(t)),
-        Cl("C05_BlocksInside", dom, C05_BlocksInside(t)),
-        Cl("C05_NoOverlap", dom, C05_NoOverlap(t)),
-        Cl("C05_Closed", dom, C05_Closed(t)),
-        Cl("C05_ZeroSizedJustified", done, C05_ZeroSizedJustified(t)),
-        Cl("C05_Addresses", done, C05_Addresses(t)),
-        Cl("C05_Serializes", dom, C05_Serializes(t)),
-        Cl("C05_FailIsTheFault", dom /\ t.fault > 0 /\ t.fault <= t.ninv, C05_FailIsTheFault(t)),
-        Cl("C05_FailCfgObject", dom /\ t.exc # "", C05_FailCfgObject(t)),
-        Cl("C05_FailNoStranded", dom /\ t.exc # "", C05_FailNoStranded(t)),
-        Cl("C09_OrderCoherent", dom /\ HasSteps(t), C09_OrderCoherent(t)),
-        Cl("C09_FnCoherent", dom /\ HasSteps(t), C09_FnCoherent(t)),
-        Cl("C09_RetCoherent", dom /\ HasSteps(t), C09_RetCoherent(t)),
-        Cl("C09_RefCoherent", dom /\ HasSteps(t), C09_RefCoherent(t)),
-        Cl("C09_DirectView", dom /\ HasSteps(t), C09_DirectView(t)),
-        Cl("C09_SameOutcome", dom /\ HasSeq(t) /\ t.fault = 0, C09_SameOutcome(t)),
-        Cl("C09_BatchEqSeq", IF done /\ HasSeq(t) THEN t.exc2 = "" ELSE FALSE, C09_BatchEqSeq(X, K)),
-        Cl("C08_Completes", IF dom THEN C.relevant /\ C.dom ELSE FALSE, Completed(t)),
-        Cl("C08_StillEvaluates", IF done THEN C.relevant /\ C.dom ELSE FALSE, C08_StillEvaluates(C)),
-        Cl("C08_Structure", IF done THEN C.relevant /\ C.dom ELSE FALSE, C08_Structure(C)),
-        Cl("C08_States", IF done THEN C.relevant /\ C.dom /\ C.postOk ELSE FALSE, C08_States(C)),
-        Cl("C08_Membership", IF done THEN C.relevant /\ C.dom /\ C.postOk ELSE FALSE, C08_Membership(X, C)),
-        Cl("C08_StatePreserved", IF done THEN C.relevant /\ C.dom /\ C.postOk /\ NoDeletions(t) /\ PatchesBalanced(X, C) ELSE FALSE, C08_StatePreserved(X, C)),
-        Cl("C04_Cfi", IF done THEN C.relevant /\ C.dom ELSE FALSE, C04_Cfi(C)) >>
-
-Diff(name, X, K, C) ==
-  CASE name = "C01_Bytes" -> C01_Diff(X)
-    [] name = "C02_Positions" -> SetDiff(ExpOrigSymFacts(X), ObsOrigSymFacts(X))
-    [] name = "C02_Proxy" -> SetDiff(ExpProxied(X) \cup PreProxied(X), ObsProxied(X))
-    [] name = "C02_PatchLabels" -> SetDiff(ExpPatchSymFacts(X), ObsPatchSymFacts(X))
-    [] name = "C04_Sx" -> SetDiff(UNION {StripPatch(ExpSxFacts(X, nm)) : nm \in SecNames(X.t.pre)},
-                                  UNION {ObsSxFacts(X.t.post, nm) : nm \in SecNames(X.t.pre)})
-    [] name = "C04_Ann" -> SetDiff(UNION {ExpAnnFacts(X, nm) : nm \in SecNames(X.t.pre)},
-                                   UNION {ObsAnnFacts(X.t.post, nm) : nm \in SecNames(X.t.pre)})
-    [] name = "C06_Attribution" -> SetDiff(UNION {ExpFnFacts(X, nm) : nm \in SecNames(X.t.pre)},
-                                           UNION {ObsFnFacts(X.t.post, nm) : nm \in SecNames(X.t.pre)})
-    [] name = "C06_Entries" -> SetDiff(UNION {ExpEntryFacts(X, nm) : nm \in SecNames(X.t.pre)},
-                                       UNION {ObsEntryFacts(X.t.post, nm) : nm \in SecNames(X.t.pre)})
-    [] name = "C06_EmptyFunctionGone" -> SetDiff(ExpLiveFns(X), ObsFnNames(X) \cap PreFnNames(X))
-    [] name = "C03_Fallthrough" -> SetDiff(K.exp.ft, ByType(K.obs, {"Fallthrough"}))
-    [] name = "C03_BranchCall" -> SetDiff(K.exp.bc, ByType(K.obs, {"Branch", "Call"}))
-    [] name = "C03_Returns" -> SetDiff(K.exp.ret, ByType(K.obs, {"Return"}))
-    [] name = "C03_NoBuriedTerminator" -> Buried(X.t.post)
-    [] name = "C03_EndpointsAlive" -> <<ObsStale(X.t.post), ObsOddSources(X.t.post)>>
-    [] name = "C01_Completes" -> <<X.t.exc, X.t.stage>>
-    [] name = "C03_Completes" -> <<X.t.exc, X.t.stage>>
-    [] name = "C05_Completes" -> <<X.t.exc, X.t.stage>>
-    [] name = "C08_Completes" -> <<X.t.exc, X.t.stage>>
-    [] name \in {"C04_Cfi", "C08_Structure"} ->
-         [nm \in DOMAIN C.S |-> [exp |-> Stream(C.S[nm].Ex), obs |-> Stream(C.S[nm].Lp)]]
-    [] name = "C08_StillEvaluates" -> [nm \in DOMAIN C.S |-> C.S[nm].Rp.err]
-    [] name = "C08_States" ->
-         [nm \in DOMAIN C.S |-> SetDiff(Range(InsnStates(C.S[nm].Ex, C.S[nm].Re)), Range(InsnStates(C.S[nm].Lp, C.S[nm].Rp)))]
-    [] name = "C08_Membership" ->
-         [nm \in DOMAIN C.S |-> SetDiff(SurvivingOrig(X, OrigStates(C.S[nm].L0, C.S[nm].R0, FALSE)), PostOrigStates(C, nm, FALSE))]
-    [] name = "C08_StatePreserved" ->
-         [nm \in DOMAIN C.S |-> SetDiff(OrigStates(C.S[nm].L0, C.S[nm].R0, TRUE), PostOrigStates(C, nm, TRUE))]
-    [] name = "C09_BatchEqSeq" -> FactDiff(AllFacts(X), AllFacts(Seq2(X)))
-    [] name = "C09_SameOutcome" -> <<X.t.exc, X.t.exc2>>
-    [] name = "C09_DirectView" -> DirectViewWitness(X.t)
-    [] name \in {"C09_OrderCoherent", "C09_FnCoherent", "C09_RetCoherent", "C09_RefCoherent"} ->
-         SelectSeq(X.t.steps, LAMBDA st : st.ordc # st.ordt \/ st.fnc # st.fnt \/ st.retc # st.rett \/ ~st.cfg_is_cache
-                                          \/ \E j \in DOMAIN st.refc : st.refc[j][2] = 0 - 1
-                                                 \/ (st.refd[j][2] # 0 /\ st.refd[j] # st.refc[j]))
-    [] name = "C05_Closed" -> <<ObsStale(X.t.post), SelectSeq(X.t.whole.aux, LAMBDA a : a.stale # 0),
-                                 SelectSeq(X.t.post.syms, LAMBDA y : y.k \in {"stale", "stale_proxy"})>>
-    [] name = "C05_Serializes" -> <<X.t.whole.ser_ok, X.t.whole.ser_err>>
-    [] name \in {"C05_FailIsTheFault", "C05_FailCfgObject", "C05_FailNoStranded"} ->
-         <<X.t.exc, X.t.whole.cfg_same_obj, X.t.whole.cfg_type>>
-    [] OTHER -> <<>>
-
-Verdict(t) ==
-  LET X == Ctx(t)
-      K == CfgK(X)
-      C == CfiK(X, NoDev)
-      cs == Clauses(X, K, C)
-      bad == SelectSeq(cs, LAMBDA c : c[2] /\ ~c[3])
-      indom == SelectSeq(cs, LAMBDA c : c[2])
-  IN  [id |-> t.id,
-       indomain |-> [i \in 1..Len(indom) |-> indom[i][1]],
-       failed |-> [i \in 1..Len(bad) |-> [clause |-> bad[i][1], diff |-> Diff(bad[i][1], X, K, C), kf |-> IF bad[i][1] \in {"C09_DirectView", "C09_SameOutcome"}
-                      THEN (IF KF_C09_1(X) /\ (bad[i][1] = "C09_DirectView" \/ X.t.exc = "UnsupportedAssemblyError")
-                            THEN {"KF-C09-1"} ELSE {})
-                      ELSE IF bad[i][1] = "C09_BatchEqSeq" THEN KfBatch(X, K)
-                      ELSE IF bad[i][1] \in {"C08_States", "C08_Structure", "C04_Cfi", "C08_StillEvaluates", "C08_Membership", "C08_Completes"}
-                      THEN (LET C2 == CfiK(X, [dropEnd |-> FALSE, dropInit |-> TRUE])
-                            IN  IF C2.dom /\ C08_Structure(C2) /\ C04_Cfi(C2)
-                                   /\ (C2.postOk => C08_States(C2))
-                                   /\ (\A nm \in DOMAIN C2.S : C2.S[nm].Rp.err = C2.S[nm].Re.err)
-                                THEN {"KF-C08-2"} ELSE {})
-                      ELSE KfTags(X, K, bad[i][1])]],
-       exc |-> t.exc]
 
 Init == tid = 1
 Next == /\ tid <= Len(Traces)
